@@ -14,12 +14,25 @@ INF = float("inf")
 def gen_case(rng, variant):
     k = rng.choice(KS)
     npool = rng.choice([1, 2, k, k + 1, 2 * k, 3 * k + 2])
-    style = rng.choice(["ties", "ties", "real", "sorted", "rsorted", "signed", "negative"])
+    style = rng.choice(["ties", "ties", "real", "sorted", "rsorted", "signed", "negative", "tiny", "ulps"])
     if style == "ties":
         vals = [0.0, -0.0, 0.5, 1.0, 1.0, 2.0, 3.0, 3.0, INF, 7.25]
         d = [rng.choice(vals) for _ in range(npool)]
     elif style == "real":
         d = [rng.random() * 10 for _ in range(npool)]
+    elif style == "tiny":
+        # all distances far below float32 eps (data at scale 1e-9): "better" must stay an exact comparison
+        d = [rng.random() * 1e-7 for _ in range(npool)]
+    elif style == "ulps":
+        # neighbouring float32 values: candidates that beat the root by one or two ulps
+        base = np.float32(rng.choice([0.75, 1.0, 3.0, 1e-3]))
+        d = [float(base)]
+        for _ in range(npool - 1):
+            v = np.float32(d[-1] if rng.random() < 0.7 else base)
+            for _s in range(rng.randrange(1, 3)):
+                v = np.nextafter(v, np.float32(0.0 if rng.random() < 0.7 else 10.0), dtype=np.float32)
+            d.append(float(v))
+        rng.shuffle(d)
     elif style == "signed":
         # distances need not be non-negative (dot / negated inner products as a callable metric)
         d = [rng.choice([-1.0, 1.0]) * rng.random() * 50 for _ in range(npool)]
@@ -176,7 +189,7 @@ def run(res, tier, seed, search):
     n = 400 if tier == "quick" else 4000
     if search:
         n *= 3
-    res.rule = ("random offer sequences per push variant (k in %s; tie-heavy / real / sorted / signed / all-below-minus-one priorities incl. inf, -0.0; "
+    res.rule = ("random offer sequences per push variant (k in %s; tie-heavy / real / sorted / signed / all-below-minus-one / tiny (< 1e-7) / one-ulp-apart priorities incl. inf, -0.0; "
                 "repeated candidates); non-trivial = >=1 eviction of a real entry, >=1 far rejection and "
                 "(checked variants) >=1 duplicate rejection; distinct = hash of (variant,k,d,offers)" % KS)
     corpus = os.path.join(VERIF, "corpus", "C11.jsonl")
